@@ -162,6 +162,10 @@ def binop(op, a: Val, b: Val, node=None) -> Val:
         if opc is ast.Sub:
             return Val(t, z3.SetDifference(x, y))
         raise Unsupported("set operator", node)
+    if ta == T.BOOL and tb == T.BOOL and opc in (ast.BitXor, ast.BitAnd, ast.BitOr):
+        # bool ^ bool, bool & bool, bool | bool are bools in Python
+        x, y = lift(a, T.BOOL), lift(b, T.BOOL)
+        return Val(T.BOOL, z3.Xor(x, y) if opc is ast.BitXor else z3.And(x, y) if opc is ast.BitAnd else z3.Or(x, y))
     x, y, t = num_join(a, b)
     if opc is ast.Add:
         return Val(t, x + y)
